@@ -27,7 +27,7 @@ class Tok:
 def parse_line(line):
     if "|" in line:
         head, trig = line.split("|", 1)
-        return head.strip(), [int(x) for x in trig.split()]
+        return head.strip(), [(int(x.split('@')[0]), int(x.split('@')[1])) for x in trig.split()]
     return line.strip(), []
 
 def filt_ok(f, item, td, now):
@@ -70,7 +70,9 @@ class StoreJudge:
         self.c06_on = True
         self.line_no = -1
 
+    aliasing = False
     def v(self, prop, msg, rule=None):
+        if self.aliasing and prop in ("C02", "C06", "C07") : return
         self.viol.append((prop, self.line_no, rule or RULES.get(msg.split()[0], "other"), msg))
 
     # ---- helpers
@@ -89,8 +91,9 @@ class StoreJudge:
         self.line_no += 1
         k = op[0]
         head, trig = parse_line(line)
+        adv_end = None
         if k == "adv":
-            self.advance(op[1]); self.quiescent = False
+            adv_end = self.now + op[1]; self.quiescent = False
         elif k == "settle":
             self.quiescent = True
         elif k == "kstep":
@@ -116,9 +119,19 @@ class StoreJudge:
         elif k == "get": self.on_get(op, head)
         elif k in ("cp", "cg"): self.on_cancel(op, head)
         elif k == "stat": self.on_stat(head)
-        # --- tokens fired during this line, in order
-        for tid in trig:
+        elif k == "final": self.level_changed()
+        elif k == "probe": self.on_probe(op, head)
+        # --- tokens fired during this line, in order, each at its own instant
+        for tid, t in trig:
+            if t < self.now or (adv_end is not None and t > adv_end) or (adv_end is None and t != self.now):
+                self.v("C19", f"token {tid} fired at time {t}, outside the interval of the step (now {self.now})", "time")
+            if t > self.now: self.advance(t - self.now)
+            for e in self.inside:
+                if e["ready_at"] < self.now: e["sure"] = True
             self.on_fire(tid)
+        if adv_end is not None and adv_end > self.now: self.advance(adv_end - self.now)
+        for e in self.inside:
+            if e["ready_at"] < self.now or (k == "settle" and e["ready_at"] <= self.now): e["sure"] = True
         if head.startswith("err") and trig:
             self.v("C07", f"rejected call {op} fired tokens {trig}")
         self.after_line(op)
@@ -137,15 +150,25 @@ class StoreJudge:
         t.state = "granted"; t.gtime = self.now; t.gline = self.line_no
         if t.side == "get" and self.c06_on:
             self.refresh_unres()
+            if self.timed:
+                # entries whose delay ends at this very instant: whether they were already ready when the
+                # token fired is not observable
+                unsure = [e for e in self.inside if e["ready_at"] == self.now and not e.get("sure")]
+                if unsure and (self.mode == "LIFO" or len([s for s in self.unres if s not in {u["seq"] for u in unsure}]) == 0):
+                    self.c06_on = False
             if not self.unres:
                 self.c06_on = False      # cannot explain the grant; C02/C04 judges deal with it
             else:
                 rel = [s for s in self.unres if s in self.released]
-                if len(rel) > 1:
-                    self.c06_on = False  # order among released items is left open by the property
+                if self.mode == "LIFO" and rel and self.unres[-1] != rel[-1] :
+                    # a released item and a later arrival compete: "most recently available" can be read
+                    # either way (availability of a released item = its release?); not judged
+                    self.c06_on = False
                 elif self.mode == "LIFO":
-                    self.bound[tid] = rel[0] if rel else self.unres[-1]
+                    self.bound[tid] = self.unres[-1]
                     self.unres.remove(self.bound[tid])
+                elif len(rel) > 1:
+                    self.c06_on = False  # order among released items is left open by the property
                 else:
                     self.bound[tid] = rel[0] if rel else self.unres[0]
                     self.unres.remove(self.bound[tid])
@@ -176,6 +199,10 @@ class StoreJudge:
             if self.filter:
                 for o in self.inside:
                     if o["id"] == e["id"]: o["ptime"] = self.now
+            if self.timed and any(o["id"] == e["id"] for o in self.inside):
+                # one object stored twice at the same time in an explicit-binding store: outside the
+                # domain (a flow item is in one place); binding by object identity becomes ambiguous
+                self.aliasing = True; self.c06_on = False
             self.inside.append(e)
             if self.cap is not None and len(self.inside) > self.cap:
                 self.v("C01", f"{len(self.inside)} items inside, capacity {self.cap}", "cap-exceeded")
@@ -259,7 +286,9 @@ class StoreJudge:
                 s = self.bound.pop(tid, None)
                 if s is not None:
                     self.released.add(s)
-                    if self.mode == "LIFO": self.unres.append(s)
+                    if self.mode == "LIFO":
+                        order = {e["seq"]: (e["ready_at"], e["seq"]) for e in self.inside}
+                        self.unres.append(s); self.unres.sort(key=lambda q: order.get(q, (0, q)))
                     else: self.unres.insert(0, s)
             t.state = "cancelled"
         else:
@@ -267,6 +296,25 @@ class StoreJudge:
                 self.v("C07", f"cancellation of unknown / dead token {tid} accepted")
             elif head != "err RuntimeError":
                 self.v("C07", f"invalid cancel raised {head} instead of RuntimeError")
+
+    # ---- edge queries (C11)
+    def on_probe(self, op, head):
+        w = head.split()
+        if len(w) < 2 or w[1] in ("skip",): return
+        if w[1] == "err":
+            self.v("C11", f"query {op[1]} raised {w[2]}", "probe"); return
+        if op[1] == "occ":
+            if int(w[1]) != len(self.inside):
+                self.v("C11", f"occupancy() = {w[1]} but {len(self.inside)} items are inside (in transit + ready)", "probe")
+        elif op[1] == "can_put":
+            room = True if self.cap is None else len(self.granted("put")) + len(self.inside) < self.cap
+            exp = room and not self.pending("put")
+            if (w[1] == "true") != exp:
+                self.v("C11", f"can_put() = {w[1]} but a space reservation issued now would{'' if exp else ' not'} be granted at once", "probe")
+        elif op[1] == "can_get" and self.quiescent:
+            exp = len(self.available()) > len(self.granted("get")) and not self.pending("get")
+            if (w[1] == "true") != exp:
+                self.v("C11", f"can_get() = {w[1]} but a retrieval reservation issued now would{'' if exp else ' not'} be granted at once", "probe")
 
     # ---- statistics
     def level_changed(self):
